@@ -13,6 +13,7 @@ import FFVerif.Props.C07
 import FFVerif.Props.C09
 import FFVerif.Props.C16
 import FFVerif.Model.Sampler
+import FFVerif.Model.Seed
 import FFVerif.Model.Miner
 import FFVerif.Props.C19
 import FFVerif.Props.C20
@@ -114,6 +115,26 @@ def handle (toks : List String) : Option String :=
     match Sampler.auAssemble fs (fcur.map (fun _ => 0)) (fcur.map (fun _ => 1)) (uns.zip uds) with
     | .ok flags => some (showList flags)
     | .error e => some ("error:" ++ e)
+  | ["c15", ops, trace] => do
+    -- ops: `set:5` `set:none` `api:int:5:12` `api:none:7` `api:other:7` `con:int:3` `con:none` `con:other`, `;`-separated
+    -- trace: per op a `,`-separated list of events `s5` `sN` `d` (or `-`), `;`-separated
+    let parseOp : String → Option Seed.Op := fun t =>
+      match t.splitOn ":" with
+      | ["set", "none"] => some (.setSeed none)
+      | ["set", n] => n.toNat?.map (fun k => .setSeed (some k))
+      | ["api", "int", n, k] => do some (.api (.int (← n.toNat?)) (← k.toNat?))
+      | ["api", "none", k] => k.toNat?.map (fun k => .api .none k)
+      | ["api", "other", k] => k.toNat?.map (fun k => .api .other k)
+      | ["con", "int", n] => n.toNat?.map (fun k => .construct (.int k))
+      | ["con", "none"] => some (.construct .none)
+      | ["con", "other"] => some (.construct .other)
+      | _ => none
+    let parseEv : String → Option Seed.Event := fun t =>
+      if t == "d" then some .draw else if t == "sN" then some (.seed none)
+      else if t.startsWith "s" then (t.drop 1).toNat?.map (fun k => .seed (some k)) else none
+    let ops ← (ops.splitOn ";").mapM parseOp
+    let trace ← (trace.splitOn ";").mapM (fun t => if t == "-" then some [] else (t.splitOn ",").mapM parseEv)
+    some (if Seed.conforms ops trace then "ok" else "fail:protocol")
   | "c09lin" :: args => do
     let a ← parseFloats args
     if a.size = 5 then some s!"{(C09.linearResidual a[0]! a[1]! a[2]! a[3]! a[4]!).toBits.toNat}" else none
